@@ -676,6 +676,7 @@ pub struct RunStats {
     pub buffer_events: u64,
     pub requests: u64,
     pub fresh_servers: u64,
+    pub fresh_processes: u64,
     pub comparisons: u64,
     pub digest_changes: u64,
     pub had_errors_before_request: bool,
@@ -868,7 +869,12 @@ fn execute_inner(h: &History, seed_checks: usize, stats: &mut RunStats) -> Optio
     let mut trace = 0xcbf2_9ce4_8422_2325u64;
     let mut seen_errors = false;
     let mut versions = Versions::new(h.entropy_seed);
+    // answers of the long-lived server to the requests that follow the last buffer or disk event
+    let mut tail_answers: Vec<(usize, Value)> = vec![];
     for (i, ev) in h.events.iter().enumerate() {
+        if !matches!(ev, Ev::Req { .. }) {
+            tail_answers.clear();
+        }
         stats.events += 1;
         *stats.kinds.entry(ev.kind_name()).or_insert(0) += 1;
         trace = rng::fnv64_extend(trace, ev.kind_name().as_bytes());
@@ -1154,10 +1160,173 @@ fn execute_inner(h: &History, seed_checks: usize, stats: &mut RunStats) -> Optio
                 });
             }
             trace = rng::fnv64_extend(trace, cl.to_string().as_bytes());
+            tail_answers.push((i, cl));
         }
     }
     stats.trace_hash = trace;
+    // Last of all: a fresh server in a fresh REAL process. The fresh servers above are threads of this worker
+    // process; whatever lives in the process itself (a static that is filled on first use) they share with the
+    // long-lived server and with every history this worker has run before.
+    if FRESH_PROCESS.with(|f| f.get()) && !world.open_order.is_empty() {
+        stats.fresh_processes += 1;
+        match fresh_process(h) {
+            Ok(fp) => {
+                let empty: Vec<Value> = vec![];
+                let uris: BTreeSet<&String> = long.published.keys().chain(fp.published.keys()).collect();
+                for u in uris {
+                    let a = long.published.get(u).unwrap_or(&empty);
+                    let b = fp.published.get(u).unwrap_or(&empty);
+                    if a != b {
+                        return Some(Found {
+                            class: "history_dependent_diagnostics".into(),
+                            sig: "diag_mismatch:fresh_process".into(),
+                            message: format!("at the end of the history the last published diagnostics for {} differ: long-lived server {} vs a fresh server in a fresh process {}", u, Value::Array(a.clone()), Value::Array(b.clone())),
+                            at_event: h.events.len().saturating_sub(1),
+                        });
+                    }
+                }
+                for (i, a) in &tail_answers {
+                    if let Some(b) = fp.answers.get(i) {
+                        if a != b {
+                            let kind = h.events[*i].kind_name();
+                            return Some(Found {
+                                class: "history_dependent_answer".into(),
+                                sig: format!("fresh_process_answer:{}", kind),
+                                message: format!("{} at event {}: the long-lived server answers {} , a fresh server in a fresh process {}", kind, i, a, b),
+                                at_event: *i,
+                            });
+                        }
+                    }
+                }
+            }
+            Err(e) => stats.log.push(format!("fresh process: {}", e)),
+        }
+    }
     None
+}
+
+thread_local! {
+    /// whether histories end with a fresh server in a fresh real process (off inside that process itself)
+    static FRESH_PROCESS: std::cell::Cell<bool> = const { std::cell::Cell::new(true) };
+}
+
+struct FreshProcess {
+    published: BTreeMap<String, Vec<Value>>,
+    /// event index -> canonical answer, for the requests after the last buffer or disk event
+    answers: BTreeMap<usize, Value>,
+}
+
+/// What the history leaves behind: the open buffers (in opening order) and the index of the first request of its tail.
+fn final_world(h: &History) -> (World, usize) {
+    let mut world = World { open_order: vec![], buffers: BTreeMap::new() };
+    let mut tail_from = 0;
+    for (i, ev) in h.events.iter().enumerate() {
+        match ev {
+            Ev::Open { file, text } | Ev::Change { file, text } => {
+                if !world.open_order.contains(file) {
+                    world.open_order.push(file.clone());
+                }
+                world.buffers.insert(file.clone(), text.clone());
+            }
+            Ev::ChangeN { file, texts } => {
+                if let Some(last) = texts.last() {
+                    if !world.open_order.contains(file) {
+                        world.open_order.push(file.clone());
+                    }
+                    world.buffers.insert(file.clone(), last.clone());
+                }
+            }
+            Ev::Close { file } => {
+                world.open_order.retain(|f| f != file);
+                world.buffers.remove(file);
+            }
+            Ev::Disk { .. } | Ev::Req { .. } => {}
+        }
+        if !matches!(ev, Ev::Req { .. }) {
+            tail_from = i + 1;
+        }
+    }
+    (world, tail_from)
+}
+
+/// Parent side: run the end of the history in a child process.
+fn fresh_process(h: &History) -> Result<FreshProcess, String> {
+    static N: std::sync::atomic::AtomicU64 = std::sync::atomic::AtomicU64::new(0);
+    let dir = verif_root().join("target").join("cases");
+    std::fs::create_dir_all(&dir).map_err(|e| e.to_string())?;
+    let path = dir.join(format!("fp-{}-{}.json", std::process::id(), N.fetch_add(1, std::sync::atomic::Ordering::SeqCst)));
+    write_json(&path, &h.to_json()).map_err(|e| e.to_string())?;
+    let exe = std::env::current_exe().map_err(|e| e.to_string())?;
+    let out = std::process::Command::new(exe).arg("C14").arg("--mode").arg("fresh1").arg("--case").arg(&path).output();
+    let _ = std::fs::remove_file(&path);
+    let out = out.map_err(|e| e.to_string())?;
+    let text = String::from_utf8_lossy(&out.stdout);
+    let v: Value = serde_json::from_str(text.trim()).map_err(|e| format!("child output: {} ({:?})", e, out.status))?;
+    let mut published = BTreeMap::new();
+    for (k, x) in v.get("published").and_then(|p| p.as_object()).ok_or("no published")? {
+        published.insert(k.clone(), x.as_array().cloned().unwrap_or_default());
+    }
+    let mut answers = BTreeMap::new();
+    for (k, x) in v.get("answers").and_then(|p| p.as_object()).ok_or("no answers")? {
+        if let Ok(i) = k.parse::<usize>() {
+            answers.insert(i, x.clone());
+        }
+    }
+    Ok(FreshProcess { published, answers })
+}
+
+/// Child side (`--mode fresh1`): the final disk, the final buffers, the tail requests - nothing else.
+fn fresh1(cli: &Cli) -> i32 {
+    let h = match cli.opts.get("case").and_then(|p| read_json(Path::new(p)).ok()).and_then(|v| History::from_json(&v)) {
+        Some(h) => h,
+        None => return EXIT_HARNESS,
+    };
+    let r = fresh_thread(8 << 20, move || {
+        FRESH_PROCESS.with(|f| f.set(false));
+        entropy::set_seed(Some(rng::derive(h.entropy_seed, "lspsim.fresh_process", 0)));
+        env::set_cwd(Some(PathBuf::from(WS)));
+        let mut d = SimDisk::new();
+        d.add_dir(WS);
+        if let Some(t) = &h.toml {
+            d.add_file(format!("{}/mos.toml", WS), t.as_bytes().to_vec());
+        }
+        for (f, st) in &h.disk {
+            apply_disk_state(&mut d, f, st);
+        }
+        for ev in &h.events {
+            if let Ev::Disk { file, state } = ev {
+                apply_disk_state(&mut d, file, state);
+            }
+        }
+        d.read_budget = Some(200_000);
+        disk::install(d);
+        super::passwatch::install();
+        let (world, tail_from) = final_world(&h);
+        let mut stats = RunStats::default();
+        let mut out = json!({"published": {}, "answers": {}});
+        if let Ok(mut f) = fresh_node(&world, &mut stats) {
+            out["published"] = json!(f.published);
+            let mut answers = serde_json::Map::new();
+            for (i, ev) in h.events.iter().enumerate().skip(tail_from) {
+                if let Ev::Req { kind, file, line, col, extra, .. } = ev {
+                    if let Ok(Ok(v)) = f.request(kind, req_params(kind, file, *line, *col, extra)) {
+                        answers.insert(i.to_string(), canonical(&v));
+                    }
+                }
+            }
+            out["answers"] = Value::Object(answers);
+        }
+        let _ = super::passwatch::uninstall();
+        disk::uninstall();
+        out
+    });
+    match r {
+        Ok(v) => {
+            println!("{}", v);
+            EXIT_OK
+        }
+        Err(_) => EXIT_HARNESS,
+    }
 }
 
 // ---------------------------------------------------------------------------------------
@@ -1721,7 +1890,7 @@ fn stats_json(st: &RunStats, runs: u64) -> Value {
     json!({
         "runs": runs,
         "events": st.events, "buffer_events": st.buffer_events, "requests": st.requests,
-        "fresh_servers": st.fresh_servers, "comparisons": st.comparisons,
+        "fresh_servers": st.fresh_servers, "fresh_processes": st.fresh_processes, "comparisons": st.comparisons,
         "nonnull_answers": st.nonnull_answers, "tokens_checked": st.tokens_checked, "ranges_checked": st.ranges_checked,
         "codegen_invocations": st.codegen_invocations, "max_passes": st.max_passes,
         "kinds": st.kinds, "pos_kinds": st.pos_kinds, "faults": st.faults,
@@ -1733,6 +1902,7 @@ fn merge_stats(t: &mut RunStats, a: &RunStats) {
     t.buffer_events += a.buffer_events;
     t.requests += a.requests;
     t.fresh_servers += a.fresh_servers;
+    t.fresh_processes += a.fresh_processes;
     t.comparisons += a.comparisons;
     t.nonnull_answers += a.nonnull_answers;
     t.tokens_checked += a.tokens_checked;
@@ -1839,6 +2009,7 @@ pub fn main(cli: &Cli) -> i32 {
     match cli.mode.as_deref() {
         Some("worker") => return worker(cli),
         Some("one") => return one(cli),
+        Some("fresh1") => return fresh1(cli),
         Some("gen") => {
             // print the generated history of run --from (debugging aid)
             let (_, max_events, seed_checks) = tier_params(cli.tier);
@@ -1896,6 +2067,7 @@ pub fn main(cli: &Cli) -> i32 {
             "buffer_events",
             "requests",
             "fresh_servers",
+            "fresh_processes",
             "comparisons",
             "nonnull_answers",
             "tokens_checked",
